@@ -245,10 +245,10 @@ impl ConcreteReadableShape for Multipatch {
         if (record_size != record_size_with_m) & (record_size != record_size_without_m) {
             Err(Error::InvalidShapeRecordSize)
         } else {
-            // num_parts was checked by the MultiPartShapeReader
+            // num_parts was checked by the MultiPartShapeReader, but the data may not be there
             let num_parts = reader.num_parts as usize;
-            let mut patch_types = Vec::<PatchType>::with_capacity(num_parts);
-            let mut patches = Vec::<Patch>::with_capacity(num_parts);
+            let mut patch_types = Vec::<PatchType>::with_capacity(num_parts.min(MAX_PREALLOCATION));
+            let mut patches = Vec::<Patch>::with_capacity(num_parts.min(MAX_PREALLOCATION));
             for _ in 0..num_parts {
                 patch_types.push(PatchType::read_from(reader.source)?);
             }
